@@ -72,8 +72,17 @@ def _tb_class():
         scared = env.boot()
         try:
             from scared.distinguishers import partitioned as P, template as T
+            mixin = getattr(T, '_TemplateBuildDistinguisherMixin', None)
+            if mixin is None:
+                # renamed by a refactoring: take it from the builder object of a public TemplateAttack (first class of its MRO that is
+                # defined in scared.distinguishers.template)
+                from estraces import read_ths_from_ram
+                ths = read_ths_from_ram(np.zeros((4, 2), 'float32'), value=np.zeros((4, 1), 'uint8'))
+                att = scared.TemplateAttack(container_building=scared.Container(ths), reverse_selection_function=scared.reverse_selection_function(_value_sf),
+                                            model=scared.Value(), partitions=[0, 1])
+                mixin = [c for c in type(att._build_analysis).__mro__ if c.__module__ == T.__name__][0]
 
-            class TB(P.PartitionedDistinguisherBase, T._TemplateBuildDistinguisherMixin):
+            class TB(P.PartitionedDistinguisherBase, mixin):
                 pass
             _TB = TB
         except Exception as e:
